@@ -27,16 +27,21 @@ Definition check_truncate_clamped (lastEnd sz mmapSz maxSz pageSize : Z) : Z * b
       let e := Z.max expected lastExpected in
       (e, e <? sz).
 
-(* tx.go rollbackChanges: after the allocator was rolled back a bounded file (maxPages > 0) is truncated to the end
-   of the restored state, max(meta end marker, data end marker) pages, if it is longer. Result: the new size. *)
-Definition rollback_truncate (metaEnd dataEnd sz pageSize maxPages : Z) : option Z :=
+(* tx.go rollbackChanges: after the allocator was rolled back a bounded file (maxPages > 0) is truncated, if it is
+   longer, to the end of the restored state - max(meta end marker, data end marker) pages - or to the end of the state
+   of the OTHER header page (otherEnd: the larger of its two end markers, 0 if that page is not valid), whichever is
+   larger (fix D33: the other header is the fall-back of Open). Result: the new size. *)
+Definition rollback_truncate (metaEnd dataEnd otherEnd sz pageSize maxPages : Z) : option Z :=
   if maxPages =? 0 then None
-  else let e := Z.max metaEnd dataEnd * pageSize in
+  else let e := Z.max (Z.max metaEnd dataEnd) otherEnd * pageSize in
        if e <? sz then Some e else None.
+
+(* the code before fix D33: the other header page is ignored *)
+Definition rollback_truncate_v1 (metaEnd dataEnd sz pageSize maxPages : Z) : option Z :=
+  rollback_truncate metaEnd dataEnd 0 sz pageSize maxPages.
 
 (* the variant of seeded change C02j: truncate to the DATA end marker the transaction saw at Begin *)
 Definition rollback_truncate_dataend (dataEnd sz pageSize maxPages : Z) : option Z :=
   if maxPages =? 0 then None
   else let e := dataEnd * pageSize in
        if e <? sz then Some e else None.
-
